@@ -3,7 +3,7 @@
 # Confirms an independently produced breaking change in a scratch worktree of /repo (demo passes without it;
 # with it: builds, the pinned suite passes, the demo fails), runs the property's checks against it, and prints a verdict.
 export GOFLAGS=-mod=mod GOPROXY=off GOSUMDB=off GOTOOLCHAIN=local
-id="$1"; src="/tmp/seed-out/$id"; prop="${id%%-*}"
+id="$1"; src="${SEEDDIR:-/tmp/seed-out}/$id"; prop="${id%%-*}"
 wt="/tmp/sc-$id"
 [ -f "$src/patch.diff" ] || { echo "$id: no patch"; exit 2; }
 git -C /repo worktree remove --force "$wt" >/dev/null 2>&1
